@@ -664,7 +664,7 @@ func (c *Conn) readRecordOrCCS(expectChangeCipherSpec bool) error {
 			// 2*MSL 驻留：握手完成后收到对端重传的旧 epoch CCS，说明对端没有收到最后一 flight，重发之
 			if epoch < c.readEpoch && handshakeComplete && typ == recordTypeChangeCipherSpec &&
 				!c.dwellDeadline.IsZero() && time.Now().Before(c.dwellDeadline) && len(c.flightRetransmit) > 0 {
-				c.pconn.WriteTo(c.flightRetransmit, c.remoteAddr)
+				c.writeFlight(c.flightRetransmit)
 			}
 			c.rawInputBuf = c.rawInputBuf[recordHeaderLen+n:]
 			continue
@@ -751,7 +751,7 @@ func (c *Conn) readRecordOrCCS(expectChangeCipherSpec bool) error {
 			// 2*MSL 驻留：握手完成后收到旧 epoch CCS，重传最后一 flight
 			if handshakeComplete && !c.dwellDeadline.IsZero() {
 				if time.Now().Before(c.dwellDeadline) && len(c.flightRetransmit) > 0 {
-					c.pconn.WriteTo(c.flightRetransmit, c.remoteAddr)
+					c.writeFlight(c.flightRetransmit)
 					continue
 				}
 				c.dwellDeadline = time.Time{}
@@ -806,7 +806,7 @@ func (c *Conn) readRecordOrCCS(expectChangeCipherSpec bool) error {
 			// 2*MSL 驻留：握手完成后收到重传 Finished，重传最后一 flight
 			if handshakeComplete && !c.dwellDeadline.IsZero() && time.Now().Before(c.dwellDeadline) {
 				if len(c.flightRetransmit) > 0 {
-					c.pconn.WriteTo(c.flightRetransmit, c.remoteAddr)
+					c.writeFlight(c.flightRetransmit)
 				}
 				continue
 			}
@@ -864,10 +864,46 @@ func (c *Conn) flush() (int, error) {
 	if len(c.sendBuf) == 0 {
 		return 0, nil
 	}
-	n, err := c.pconn.WriteTo(c.sendBuf, c.remoteAddr)
+	n, err := c.writeFlight(c.sendBuf)
 	c.sendBuf = nil
 	c.buffering = false
 	return n, err
+}
+
+// writeFlight 发送一组完整的记录（一个 flight 或其重传）：按记录边界依次装入不超过 PMTU 的数据报。
+// 每条记录本身不超过 PMTU（握手消息在写入时已按 PMTU 分片），但整个 flight 往往超过，
+// 一次 WriteTo 发出会依赖 IP 分片，丢失任一分片即丢失整个 flight。
+func (c *Conn) writeFlight(buf []byte) (int, error) {
+	pmtu := 1400
+	if c.config != nil && c.config.PMTU > 0 {
+		pmtu = c.config.PMTU
+	}
+	total := 0
+	for len(buf) > 0 {
+		end := 0
+		for end < len(buf) {
+			if len(buf)-end < recordHeaderLen {
+				end = len(buf)
+				break
+			}
+			recLen := recordHeaderLen + (int(buf[end+11])<<8 | int(buf[end+12]))
+			if end+recLen > len(buf) {
+				end = len(buf)
+				break
+			}
+			if end > 0 && end+recLen > pmtu {
+				break
+			}
+			end += recLen
+		}
+		n, err := c.pconn.WriteTo(buf[:end], c.remoteAddr)
+		total += n
+		if err != nil {
+			return total, err
+		}
+		buf = buf[end:]
+	}
+	return total, nil
 }
 
 // =============================================================================
